@@ -5478,3 +5478,167 @@ func init() {
 	txt := "each datatype header word takes its version and bit field from its own datatype: within one function no variable is shifted into the `class | version<<4 | bits<<8` word of two different datatypes (the compound's own `version` packed into a member's header writes every member as version 3: a version 1 member reads back with another version, and a reader that switches on it takes the wrong layout)"
 	shareRule([]string{"C11", "C01"}, txt, "C11", func(c *Ctx, r *Result, id string) { headerWordSourceRule(c, r, id, 6) })
 }
+
+// clampToBoundaryRule (syntax tree + types): `if x >= N { x = N - c }` clamps to the greatest value that fails the test (c = 1),
+// `if x > N { x = N - c }` to N itself (c = 0): with any other c a larger x ends below a smaller one.
+func clampToBoundaryRule(c *Ctx, r *Result, rule string, floor int) {
+	n, bad := 0, 0
+	for _, p := range c.Pkgs {
+		if p.TypesInfo == nil || !libPackage(p.PkgPath) {
+			continue
+		}
+		info := p.TypesInfo
+		for _, file := range p.Syntax {
+			if strings.HasSuffix(p.Fset.Position(file.Pos()).Filename, "_test.go") {
+				continue
+			}
+			var fname string
+			ast.Inspect(file, func(nd ast.Node) bool {
+				if fd, ok := nd.(*ast.FuncDecl); ok {
+					fname = fd.Name.Name
+					return true
+				}
+				is, ok := nd.(*ast.IfStmt)
+				if !ok || is.Init != nil || is.Else != nil || len(is.Body.List) != 1 {
+					return true
+				}
+				cmp, ok := is.Cond.(*ast.BinaryExpr)
+				if !ok || (cmp.Op != token.GEQ && cmp.Op != token.GTR) {
+					return true
+				}
+				as, ok := is.Body.List[0].(*ast.AssignStmt)
+				if !ok || as.Tok != token.ASSIGN || len(as.Lhs) != 1 || len(as.Rhs) != 1 {
+					return true
+				}
+				if t := info.TypeOf(cmp.X); t == nil || !isIntType(t) {
+					return true
+				}
+				x, bound := types.ExprString(cmp.X), types.ExprString(cmp.Y)
+				if types.ExprString(as.Lhs[0]) != x {
+					return true
+				}
+				if tv, isK := info.Types[cmp.Y]; isK && tv.Value != nil {
+					return true // a constant bound: the assigned constant is folded, not decided here
+				}
+				var k int64 = -1
+				rhs := ast.Unparen(as.Rhs[0])
+				if types.ExprString(rhs) == bound {
+					k = 0
+				} else if sub, isSub := rhs.(*ast.BinaryExpr); isSub && sub.Op == token.SUB && types.ExprString(ast.Unparen(sub.X)) == bound {
+					if tv, isK := info.Types[sub.Y]; isK && tv.Value != nil {
+						if v, exact := constant.Int64Val(constant.ToInt(tv.Value)); exact {
+							k = v
+						}
+					}
+				}
+				if k < 0 {
+					return true
+				}
+				n++
+				want := int64(0)
+				if cmp.Op == token.GEQ {
+					want = 1
+				}
+				if k != want {
+					bad++
+					r.Viol(rule, fmt.Sprintf("%s#%s-clamped-to-the-boundary-%d", fname, x, bad), c.Pos(as.Pos()), fmt.Sprintf("under %s %s %s the value is set to %s - %d, not to the boundary (%s - %d): a larger %s ends below a smaller one", x, cmp.Op, bound, bound, k, bound, want, x))
+				}
+				return true
+			})
+		}
+	}
+	if bad == 0 {
+		r.Hold(rule, "module#every-clamp-goes-to-the-boundary", "", fmt.Sprintf("%d clamps of an integer to a variable bound examined", n))
+	}
+	if n < floor {
+		r.Shortfall(c, rule, fmt.Sprintf("%s: only %d clamps found (expected >= %d)", rule, n, floor))
+	}
+}
+
+// selectionEndRule (syntax tree): wherever the inclusive end Start[i] + (Count[i]-1)*Stride[i] + Block[i] - k of a selection is computed, k is 1.
+func selectionEndRule(c *Ctx, r *Result, rule string, floor int) {
+	n, bad := 0, 0
+	for _, p := range c.Pkgs {
+		if p.TypesInfo == nil || !libPackage(p.PkgPath) {
+			continue
+		}
+		info := p.TypesInfo
+		for _, file := range p.Syntax {
+			if strings.HasSuffix(p.Fset.Position(file.Pos()).Filename, "_test.go") {
+				continue
+			}
+			var fname string
+			ast.Inspect(file, func(nd ast.Node) bool {
+				if fd, ok := nd.(*ast.FuncDecl); ok {
+					fname = fd.Name.Name
+					return true
+				}
+				sub, ok := nd.(*ast.BinaryExpr)
+				if !ok || sub.Op != token.SUB {
+					return true
+				}
+				tv, isK := info.Types[sub.Y]
+				if !isK || tv.Value == nil {
+					return true
+				}
+				// the left side is a sum of three terms, among them .Block[..] and a product with .Stride[..]
+				var terms []ast.Expr
+				var flat func(e ast.Expr)
+				flat = func(e ast.Expr) {
+					e = ast.Unparen(e)
+					if b, isB := e.(*ast.BinaryExpr); isB && b.Op == token.ADD {
+						flat(b.X)
+						flat(b.Y)
+						return
+					}
+					terms = append(terms, e)
+				}
+				flat(sub.X)
+				if len(terms) != 3 {
+					return true
+				}
+				field := func(e ast.Expr) string {
+					if ix, isIx := ast.Unparen(e).(*ast.IndexExpr); isIx {
+						if sel, isSel := ix.X.(*ast.SelectorExpr); isSel {
+							return sel.Sel.Name
+						}
+					}
+					return ""
+				}
+				seen := map[string]bool{}
+				for _, t := range terms {
+					if f := field(t); f != "" {
+						seen[f] = true
+					} else if m, isM := t.(*ast.BinaryExpr); isM && m.Op == token.MUL {
+						if field(m.X) == "Stride" || field(m.Y) == "Stride" {
+							seen["Stride"] = true
+						}
+					}
+				}
+				if !seen["Block"] || !seen["Stride"] { // the start may have been copied into a local
+					return true
+				}
+				n++
+				k, _ := constant.Int64Val(constant.ToInt(tv.Value))
+				if k != 1 {
+					bad++
+					r.Viol(rule, fmt.Sprintf("%s#inclusive-end-of-the-selection-%d", fname, bad), c.Pos(sub.Pos()), fmt.Sprintf("the last selected coordinate is Start + (Count-1)*Stride + Block - 1 at every other site (the validator admits Start + (Count-1)*Stride + Block <= size); here %d is subtracted", k))
+				}
+				return false
+			})
+		}
+	}
+	if bad == 0 {
+		r.Hold(rule, "module#inclusive-selection-end-agrees", "", fmt.Sprintf("%d computations of the last selected coordinate examined", n))
+	}
+	if n < floor {
+		r.Shortfall(c, rule, fmt.Sprintf("%s: only %d computations of the last selected coordinate (expected >= %d)", rule, n, floor))
+	}
+}
+
+func init() {
+	txt := "a clamp goes to the boundary: `if x >= N { x = N - c }` on integers with a variable bound has c = 1 and `if x > N { x = N - c }` has c = 0, so that the clamp is monotone (endPos = dims - 2 under endPos >= dims drops the last chunk of a selection that reaches the end of the dataset: the partial read returns zeros where the full read has data)"
+	shareRule([]string{"C09", "C13"}, txt, "C09", func(c *Ctx, r *Result, id string) { clampToBoundaryRule(c, r, id, 5) })
+	txt2 := "the last selected coordinate is computed the same way everywhere: every expression Start[i] + (Count[i]-1)*Stride[i] + Block[i] - k has k = 1, the inclusive counterpart of the bound the selection validator admits (k = 2 leaves out the last chunk whenever the selection ends on the first element of a chunk)"
+	shareRule([]string{"C09"}, txt2, "C09", func(c *Ctx, r *Result, id string) { selectionEndRule(c, r, id, 1) })
+}
